@@ -222,6 +222,23 @@ def funnel(rep, cfg):
             wa = [t for kind, t in outputs if kind == "write_all" and Tm.contains(t, lambda s_: shield(s_))]
             if not wa:
                 bad.append("no write_all of the complete encoding reaches the writer")
+        # ... and the bytes that leave are the encoding itself, untransformed (hex text for Debug/Display)
+        def exact(x):
+            return shield(x) and x.op != "enc_field"
+        rty = (b.get("output") or "").replace(" ", "")
+        v = out.value
+        if rty.endswith("Encoding") or rty == "[u8;32]":
+            if v.op == "struct" and v.args[0].endswith("Encoding") and v.args[1] == ("0",):
+                v = v.args[2]
+            if not exact(v):
+                bad.append("returned bytes are not exactly bytes(encode(self)): %s" % Tm.show(v, maxdepth=4))
+        for kind, t in outputs:
+            if kind == "write_all" and not any(exact(a_) for a_ in t.args):
+                bad.append("write_all argument is a transformation of the encoding: %s" % Tm.show(t, maxdepth=4))
+            if kind == "fmt":
+                for h in Tm.subterms(t):
+                    if h.op == "hex" and not exact(h.args[0]):
+                        bad.append("hex text of something other than the encoding bytes: %s" % Tm.show(h, maxdepth=4))
         for u in out.unmodelled:
             bad.append("unmodelled construct on the output path: " + u)
         key = "FUNNEL/%s/%s" % (cfg.name, norm_path(p))
@@ -231,6 +248,14 @@ def funnel(rep, cfg):
                where=cfg.where(p), sample={"obligation": key, "outputs": [(k, Tm.show(t, maxdepth=5)) for k, t in outputs][:3]})
         for u in out.unmodelled:
             rep.unmodelled.append("%s %s: %s" % (cfg.name, norm_path(p), u))
+    # unwrapping an Encoding yields its own bytes, untransformed
+    for path, b in sorted(cfg.prog.bodies.items()):
+        if b.get("impl_trait_def") == "core::convert::From" and b.get("impl_self", "").replace(" ", "") == "[u8;32]" and \
+                any(str(i_).endswith("Encoding") for i_ in (b.get("inputs") or [])):
+            out = cfg.run(path)
+            pn = b["params"][0].get("name", "p0")
+            rep.ob("FUNNEL/%s/%s" % (cfg.name, norm_path(path)), out.value is field(mk("param", pn), "0") and not out.unmodelled,
+                   "From<Encoding> for [u8; 32] must return the encoding's own bytes; got %s" % Tm.show(out.value, maxdepth=4), where=cfg.where(path), nontrivial=False)
     # serialized_size = 32
     for path, b in cfg.prog.bodies.items():
         if b.get("impl_trait_def") == "ark_serialize::CanonicalSerialize" and path.endswith("::serialized_size") and "fields::" not in path:
@@ -272,4 +297,7 @@ def run(rep, facts, tier):
     nconv = import_rules(rep, c06, {k: v for k, v in facts.items() if k != "R"}, tier, "CONV", pred=lambda k: k.startswith("PROV/") and bool(conv.search(k)))
     rep.rules += ["CONV (C06's PROV instances on the affine <-> projective conversion sites)"]
     rep.floor("conversion_sites", nconv, 6)
+    if "A" in cfgs:
+        from . import groupops
+        groupops.check_identity_forms(rep, cfgs["A"], "C03")     # into_affine / into_group / cofactor forms denote their own operand
     rep.floor("encode_entry_points_total", n, 9)
